@@ -134,8 +134,9 @@ void ezc3d::Header::write(std::fstream &f) const
         f.write(reinterpret_cast<const char*>(&_eventsDisplay[i]), 1*ezc3d::DATA_TYPE::WORD);
     f.write(reinterpret_cast<const char*>(&_emptyBlock3), 1*ezc3d::DATA_TYPE::WORD);
     for (unsigned int i = 0; i < _eventsLabel.size(); ++i){
-        const char* event = _eventsLabel[i].c_str();
-        f.write(event, 2*ezc3d::DATA_TYPE::WORD);
+        std::string event(_eventsLabel[i]);
+        event.resize(2*ezc3d::DATA_TYPE::WORD, '\0');
+        f.write(event.c_str(), 2*ezc3d::DATA_TYPE::WORD);
     }
     for (int i=0; i<22; ++i)
         f.write(reinterpret_cast<const char*>(&_emptyBlock4), 1*ezc3d::DATA_TYPE::WORD);
